@@ -194,13 +194,14 @@ type instance struct {
 	seed  int64
 	nonil bool
 	depth int
+	wide  int // k > 0: the k-th wire-boundary instance of its type (fill.go: byte-counted lists at the boundaries of their count byte)
 }
 
 // build constructs the instance again from its seed (the probes change one leaf of a fresh copy).
 func (it *instance) build() interface{} {
 	r := rand.New(rand.NewSource(it.seed))
 	p := it.pt.mk()
-	g := &filler{r: r, nonil: it.nonil}
+	g := &filler{r: r, nonil: it.nonil, wide: it.wide}
 	if r.Intn(24) == 0 {
 		g.big = 1
 	}
@@ -245,22 +246,82 @@ type message struct {
 }
 
 var stats = struct {
-	nilFallback map[string]int
-	probes      int
-	leaves      int
-	tops        map[string]map[string]bool
-}{map[string]int{}, 0, 0, map[string]map[string]bool{}}
+	nilFallback     map[string]int
+	probes          int
+	leaves          int
+	tops            map[string]map[string]bool
+	sharedAbandoned int
+}{map[string]int{}, 0, 0, map[string]map[string]bool{}, 0}
 
 // carriedBy derives the carried leaves from a writer: leaf k is carried iff
 // writing a fresh copy in which only leaf k was changed gives other bytes
 // (or makes the writer fail).
-func carriedBy(it *instance, n int, base []byte, write func(p interface{}) ([]byte, string)) ([]string, error) {
-	carried := []string{}
-	for k := 0; k < n; k++ {
+//
+// Every probe works on a copy rebuilt from the seed.  For an instance whose
+// writer is observably pure (pure: writing changed no leaf and a second write
+// gave the same bytes) the leaves with an involutive probe share ONE copy:
+// change, write, change back.  That is only a shortcut (a wide table costs n
+// rebuilds of n leaves otherwise): it is abandoned for the whole instance when a
+// writer fails or when, after the last probe, the copy does not project and
+// write exactly like the original.
+// noShared (argument noshared=1) turns the shared-copy shortcut off: both ways must record the same traces
+var noShared bool
+
+func carriedBy(it *instance, n int, base []byte, w map[string]interface{}, pure bool, write func(p interface{}) ([]byte, string)) ([]string, error) {
+	res := make([]bool, n)
+	done := make([]bool, n)
+	if pure && n > 64 && !noShared {
 		p2 := it.build()
 		l2 := walkObject(p2)
 		if len(l2) != n {
 			return nil, fmt.Errorf("instance %s/%d is not reproducible from its seed (%d leaves, then %d)", it.pt.name, it.seed, n, len(l2))
+		}
+		ok := true
+		for k := 0; k < n && ok; k++ {
+			if !l2[k].inv || l2[k].mut == nil {
+				continue
+			}
+			l2[k].mut()
+			b2, msg := write(p2)
+			l2[k].mut()
+			stats.probes++
+			if msg != "" {
+				ok = false
+				break
+			}
+			res[k], done[k] = !bytes.Equal(b2, base), true
+		}
+		if ok {
+			b3, msg := write(p2)
+			ok = msg == "" && bytes.Equal(b3, base)
+			for _, l := range l2 {
+				if !ok {
+					break
+				}
+				ok = jsonEq(l.get(), w[l.path])
+			}
+		}
+		if !ok {
+			stats.sharedAbandoned++
+			res, done = make([]bool, n), make([]bool, n)
+		}
+	}
+	carried := []string{}
+	var paths []string
+	for k := 0; k < n; k++ {
+		if done[k] {
+			continue
+		}
+		p2 := it.build()
+		l2 := walkObject(p2)
+		if len(l2) != n {
+			return nil, fmt.Errorf("instance %s/%d is not reproducible from its seed (%d leaves, then %d)", it.pt.name, it.seed, n, len(l2))
+		}
+		if paths == nil {
+			paths = make([]string, n)
+			for i := range l2 {
+				paths[i] = l2[i].path
+			}
 		}
 		if l2[k].mut == nil {
 			continue
@@ -268,8 +329,16 @@ func carriedBy(it *instance, n int, base []byte, write func(p interface{}) ([]by
 		l2[k].mut()
 		b2, msg := write(p2)
 		stats.probes++
-		if msg != "" || !bytes.Equal(b2, base) {
-			carried = append(carried, l2[k].path)
+		res[k] = msg != "" || !bytes.Equal(b2, base)
+	}
+	if paths == nil {
+		for _, l := range walkObject(it.build()) {
+			paths = append(paths, l.path)
+		}
+	}
+	for k := 0; k < n; k++ {
+		if res[k] {
+			carried = append(carried, paths[k])
 		}
 	}
 	return carried, nil
@@ -285,8 +354,8 @@ func topOf(path string) string {
 // makeMessage populates an instance (retrying with every optional section
 // present when the writer requires one), records its leaves, writes it and
 // derives the carried set.  msg != "" : the writer failed.
-func makeMessage(pt *ptype, seed int64, depth int, write func(p interface{}) ([]byte, string)) (*message, string, error) {
-	it := &instance{pt: pt, seed: seed, depth: depth}
+func makeMessage(pt *ptype, seed int64, depth int, wide int, write func(p interface{}) ([]byte, string)) (*message, string, error) {
+	it := &instance{pt: pt, seed: seed, depth: depth, wide: wide}
 	if write == nil {
 		write = func(p interface{}) ([]byte, string) { return encode(pt, p) }
 	}
@@ -323,7 +392,12 @@ func makeMessage(pt *ptype, seed int64, depth int, write func(p interface{}) ([]
 				}
 			}
 		}
-		carried, err := carriedBy(it, len(leaves), b, write)
+		pure := len(wd) == 0
+		if pure {
+			b1, msg1 := write(p)
+			pure = msg1 == "" && bytes.Equal(b1, b)
+		}
+		carried, err := carriedBy(it, len(leaves), b, w, pure, write)
 		if err != nil {
 			return nil, "", err
 		}
@@ -357,8 +431,8 @@ func (m *message) itemEvent() core.Ev {
 }
 
 // roundTrip: Enc, Dec, ReEnc events of one populated pack.
-func roundTrip(c *core.Ctx, t *core.Trace, pt *ptype, seed int64) error {
-	m, msg, err := makeMessage(pt, seed, 1, nil)
+func roundTrip(c *core.Ctx, t *core.Trace, pt *ptype, seed int64, wide int) error {
+	m, msg, err := makeMessage(pt, seed, 1, wide, nil)
 	if err != nil {
 		return err
 	}
@@ -427,7 +501,7 @@ func runCodec(c *core.Ctx) error {
 		return nil
 	}
 	per := c.Pick(24, 300)
-	const chunk = 1000 // histories per trace file (one TLC start each)
+	chunk := c.Pick(320, 1000) // histories per trace file (one TLC start each; the files are validated in parallel)
 	var t *core.Trace
 	inFile := 0
 	for ti, pt := range ptypes {
@@ -443,7 +517,12 @@ func runCodec(c *core.Ctx) error {
 			inFile++
 			t.Reset("codec", cas, core.Ev{"type": pt.name})
 			r := c.Rng("codec", cas)
-			if err := roundTrip(c, t, pt, r.Int63()); err != nil {
+			// every sixth instance of a type is a wire-boundary instance (the boundaries in turn)
+			wide := 0
+			if i%6 == 5 {
+				wide = i/6 + 1
+			}
+			if err := roundTrip(c, t, pt, r.Int63(), wide); err != nil {
 				return err
 			}
 			t.Emit(core.Ev{"ev": "End", "n": 1})
@@ -526,6 +605,65 @@ func outOf(items []interface{}) []interface{} {
 	return out
 }
 
+// compactOut is outOf for long lists: the distinct projections once (outs) and,
+// per position, which of them was returned (outi, 1-based) -- the same
+// information as out, without repeating equal records tens of thousands of times.
+func compactOut(items []interface{}) (outs []interface{}, outi []int) {
+	outs, outi = []interface{}{}, []int{}
+	seen := map[string]int{}
+	for _, q := range items {
+		prep(q)
+		o := map[string]interface{}{"type": typeName(q), "r": snapshotOf(q)}
+		b, _ := json.Marshal(o)
+		k, ok := seen[string(b)]
+		if !ok {
+			outs = append(outs, o)
+			k = len(outs)
+			seen[string(b)] = k
+		}
+		outi = append(outi, k)
+	}
+	return
+}
+
+// emitUnpack records what a decoded container returned (long lists in the compact form).
+func emitUnpack(t *core.Trace, got []interface{}, where core.Ev) bool {
+	ev := core.Ev{"ev": "Unpack"}
+	msg := core.Guard(func() {
+		if len(got) >= 64 {
+			ev["outs"], ev["outi"] = compactOut(got)
+		} else {
+			ev["out"] = outOf(got)
+		}
+	})
+	if msg != "" {
+		p := core.Ev{"ev": "Panic", "in": "project(unpacked)", "msg": msg}
+		for k, v := range where {
+			p[k] = v
+		}
+		t.Emit(p)
+		return false
+	}
+	t.Emit(ev)
+	return true
+}
+
+// Element counts at the boundaries of a 16-bit count cell (gen "counts"): a
+// record list travels with an unsigned 16-bit count, the composite with a
+// signed one (its limit is 32767).  Long lists are built from a few distinct
+// registered items, repeated in a random pattern.
+var countsUnsigned = []int{127, 128, 129, 255, 256, 257, 32767, 32768, 32769, 65534, 65535}
+var countsSigned = []int{127, 128, 129, 255, 256, 257, 32766, 32767}
+
+// pattern: which of k registered items stands at each of n positions
+func pattern(r *rand.Rand, n, k int) []int {
+	idx := make([]int, n)
+	for i := range idx {
+		idx[i] = 1 + r.Intn(k)
+	}
+	return idx
+}
+
 // wire sends a container through the real writer and reader.
 func wire(pt *ptype, p interface{}) (interface{}, string) {
 	b, msg := encode(pt, p)
@@ -552,29 +690,53 @@ var innerTypes = func() []*ptype {
 	return ts
 }()
 
-func packHistory(c *core.Ctx, t *core.Trace, kind string, cas int, r *rand.Rand) error {
+// nFixed >= 0: that many inner packs, drawn from three registered ones (gen "counts")
+func packHistory(c *core.Ctx, t *core.Trace, kind string, cas int, r *rand.Rand, nFixed int) error {
 	n := []int{0, 1, 2, 3, 3, 5}[r.Intn(6)]
+	distinct := n
+	if nFixed >= 0 {
+		n, distinct = nFixed, 3
+	}
 	var items []pack.Pack
 	var concat []byte
 	idx := []int{}
-	for i := 0; i < n; i++ {
-		pt := innerTypes[r.Intn(len(innerTypes))]
-		if kind == "lszip" {
-			pt = typeByName("LogSinkPack")
-		}
-		m, msg, err := makeMessage(pt, r.Int63(), 0, nil)
-		if err != nil {
-			return err
-		}
-		if msg != "" {
-			t.Emit(core.Ev{"ev": "Panic", "in": "Write(item)", "type": pt.name, "msg": msg})
-			return nil
+	var msgs []*message
+	for i := 0; i < distinct; i++ {
+		var m *message
+		for try := 0; ; try++ {
+			pt := innerTypes[r.Intn(len(innerTypes))]
+			if kind == "lszip" {
+				pt = typeByName("LogSinkPack")
+			}
+			var msg string
+			var err error
+			m, msg, err = makeMessage(pt, r.Int63(), 0, 0, nil)
+			if err != nil {
+				return err
+			}
+			if msg != "" {
+				t.Emit(core.Ev{"ev": "Panic", "in": "Write(item)", "type": pt.name, "msg": msg})
+				return nil
+			}
+			if nFixed < 0 || len(m.w) <= 40 || try >= 50 {
+				break // an item repeated thousands of times is a small one
+			}
 		}
 		t.Emit(m.itemEvent())
-		// the item itself is handed over unwritten: a fresh copy from the same seed
-		items = append(items, m.it.build().(pack.Pack))
-		concat = append(concat, m.bytes...)
-		idx = append(idx, i+1)
+		msgs = append(msgs, m)
+		if nFixed < 0 {
+			// the item itself is handed over unwritten: a fresh copy from the same seed
+			items = append(items, m.it.build().(pack.Pack))
+			concat = append(concat, m.bytes...)
+			idx = append(idx, i+1)
+		}
+	}
+	if nFixed >= 0 {
+		idx = pattern(r, n, distinct)
+		for _, k := range idx {
+			items = append(items, msgs[k-1].it.build().(pack.Pack))
+			concat = append(concat, msgs[k-1].bytes...)
+		}
 	}
 	var box interface{}
 	ev := core.Ev{"ev": "Build", "kind": kind, "items": idx, "status0": 0, "minsize": -1, "plainlen": len(concat),
@@ -661,12 +823,9 @@ func packHistory(c *core.Ctx, t *core.Trace, kind string, cas int, r *rand.Rand)
 		t.Emit(core.Ev{"ev": "Panic", "in": "GetRecords", "kind": kind, "msg": msg})
 		return nil
 	}
-	var o []interface{}
-	if msg := core.Guard(func() { o = outOf(got) }); msg != "" {
-		t.Emit(core.Ev{"ev": "Panic", "in": "project(unpacked)", "kind": kind, "msg": msg})
+	if !emitUnpack(t, got, core.Ev{"kind": kind}) {
 		return nil
 	}
-	t.Emit(core.Ev{"ev": "Unpack", "out": o})
 	c.Count(fmt.Sprintf("%s:%d:%v:%d", kind, n, ev["status"], len(concat)), n > 0)
 	return nil
 }
@@ -820,10 +979,18 @@ var recKinds = []*recKind{
 		}},
 }
 
-func recsHistory(c *core.Ctx, t *core.Trace, rk *recKind, cas int, r *rand.Rand) error {
+// nFixed >= 0: that many records, drawn from three registered ones (gen "counts")
+func recsHistory(c *core.Ctx, t *core.Trace, rk *recKind, cas int, r *rand.Rand, nFixed int) error {
 	how := rk.setters[r.Intn(len(rk.setters))]
 	n := []int{0, 0, 1, 2, 3, 4, 7}[r.Intn(7)]
 	unset := n == 0 && r.Intn(2) == 0 // a pack whose records were never set
+	if nFixed < 0 && cas%1000 == 0 && n == 0 {
+		n, unset = 2, false // the first history of a pack type always holds records (the binding self-test corrupts its item list)
+	}
+	distinct := n
+	if nFixed >= 0 {
+		n, distinct, unset = nFixed, 3, false
+	}
 	box := rk.mkPack(r)
 	(&filler{r: r}).fillStruct(reflect.ValueOf(box).Elem().FieldByName("AbstractPack"))
 	ver := reflect.ValueOf(box).Elem().FieldByName("Version")
@@ -843,8 +1010,9 @@ func recsHistory(c *core.Ctx, t *core.Trace, rk *recKind, cas int, r *rand.Rand)
 	}
 	var items []interface{}
 	idx := []int{}
-	for i := 0; i < n; i++ {
-		m, msg, err := makeMessage(recType, r.Int63(), 0, writeRec)
+	var msgs []*message
+	for i := 0; i < distinct; i++ {
+		m, msg, err := makeMessage(recType, r.Int63(), 0, 0, writeRec)
 		if err != nil {
 			return err
 		}
@@ -853,8 +1021,17 @@ func recsHistory(c *core.Ctx, t *core.Trace, rk *recKind, cas int, r *rand.Rand)
 			return nil
 		}
 		t.Emit(m.itemEvent())
-		items = append(items, m.it.build())
-		idx = append(idx, i+1)
+		msgs = append(msgs, m)
+		if nFixed < 0 {
+			items = append(items, m.it.build())
+			idx = append(idx, i+1)
+		}
+	}
+	if nFixed >= 0 {
+		idx = pattern(r, n, distinct)
+		for _, k := range idx {
+			items = append(items, msgs[k-1].it.build())
+		}
 	}
 	if !unset {
 		if msg := core.Guard(func() { rk.set(box, how, items) }); msg != "" {
@@ -877,12 +1054,9 @@ func recsHistory(c *core.Ctx, t *core.Trace, rk *recKind, cas int, r *rand.Rand)
 		t.Emit(core.Ev{"ev": "Panic", "in": "GetRecords", "type": rk.name, "how": how, "unset": unset, "msg": msg})
 		return nil
 	}
-	var o []interface{}
-	if msg := core.Guard(func() { o = outOf(got) }); msg != "" {
-		t.Emit(core.Ev{"ev": "Panic", "in": "project(unpacked)", "type": rk.name, "msg": msg})
+	if !emitUnpack(t, got, core.Ev{"type": rk.name}) {
 		return nil
 	}
-	t.Emit(core.Ev{"ev": "Unpack", "out": o})
 	c.Count(fmt.Sprintf("recs:%s:%s:%d:%v", rk.name, how, n, unset), n > 0)
 	return nil
 }
@@ -897,7 +1071,7 @@ func runContainers(c *core.Ctx, t *core.Trace) error {
 				continue
 			}
 			t.Reset(kind, cas, nil)
-			if err := packHistory(c, t, kind, cas, c.Rng(kind, cas)); err != nil {
+			if err := packHistory(c, t, kind, cas, c.Rng(kind, cas), -1); err != nil {
 				return err
 			}
 			t.Emit(core.Ev{"ev": "End", "n": 1})
@@ -915,7 +1089,7 @@ func runContainers(c *core.Ctx, t *core.Trace) error {
 					continue
 				}
 				t.Reset("recs", cas, core.Ev{"pack": rk.name})
-				if err := recsHistory(c, t, rk, cas, c.Rng("recs", cas)); err != nil {
+				if err := recsHistory(c, t, rk, cas, c.Rng("recs", cas), -1); err != nil {
 					return err
 				}
 				t.Emit(core.Ev{"ev": "End", "n": 1})
@@ -925,15 +1099,65 @@ func runContainers(c *core.Ctx, t *core.Trace) error {
 	return nil
 }
 
+// runCounts: gen "counts", case = kind*100 + index into the kind's boundary
+// list (kinds 0..6: the record-list packs, 7: the composite pack).  Thorough:
+// every boundary of every kind; quick: per kind one short list (127..257) and,
+// for two kinds, one list around the sign bit of the 16-bit count cell.
+func runCounts(c *core.Ctx) error {
+	if !c.WantGen("counts") {
+		return nil
+	}
+	var t *core.Trace
+	for ki := 0; ki <= len(recKinds); ki++ {
+		bounds := countsUnsigned
+		if ki == len(recKinds) {
+			bounds = countsSigned
+		}
+		pick := c.Rng("counts-pick", ki)
+		short, long := pick.Intn(6), 6+pick.Intn(3)
+		rot := int((c.Seed%4 + 4) % 4)
+		longKind := ki == rot || ki == 4+rot
+		if ki == len(recKinds) {
+			long = 6 + pick.Intn(2)
+		}
+		for bi, n := range bounds {
+			cas := ki*100 + bi
+			if !c.Want("counts", cas) {
+				continue
+			}
+			if c.OnlyCase < 0 && !c.Thorough() && bi != short && !(longKind && bi == long) {
+				continue
+			}
+			if t == nil {
+				t = c.Trace("c03_counts", "Trace_PackCodec")
+			}
+			t.Reset("counts", cas, core.Ev{"n": n})
+			var err error
+			if ki < len(recKinds) {
+				err = recsHistory(c, t, recKinds[ki], cas, c.Rng("counts", cas), n)
+			} else {
+				err = packHistory(c, t, "composite", cas, c.Rng("counts", cas), n)
+			}
+			if err != nil {
+				return err
+			}
+			t.Emit(core.Ev{"ev": "End", "n": 1})
+		}
+	}
+	return nil
+}
+
 // ---------------------------------------------------------------------- run
 
 func Run(c *core.Ctx) error {
 	c.Rule = "codec: one history per populated pack: leaves recorded by reflection, written by the real writer (ToBytesPack, or the type's own Write for packs the factory does not know), carried set derived by changing one leaf at a time, read by the real reader over bytes+trailer, written again (non-trivial: at least one carried leaf; distinct by type, encoded length and carried count); " +
-		"registry: CreatePack for every 16-bit type code; containers: composite / zip / log-sink zip built from registered inner packs and record-list packs built from registered records through the public setters, sent over the wire, unpacked (non-trivial: at least one item)"
-	known := map[string]bool{"": true, "codec": true, "registry": true, "composite": true, "zip": true, "lszip": true, "recs": true}
+		"registry: CreatePack for every 16-bit type code; containers: composite / zip / log-sink zip built from registered inner packs and record-list packs built from registered records through the public setters, sent over the wire, unpacked (non-trivial: at least one item); " +
+		"counts: the same containers with an element count at a boundary of the 16-bit count cell (127..257, 32766..65535), built from three registered items repeated in a random pattern"
+	known := map[string]bool{"": true, "codec": true, "registry": true, "composite": true, "zip": true, "lszip": true, "recs": true, "counts": true}
 	if !known[c.OnlyGen] && !strings.HasPrefix(c.OnlyGen, "kf_") {
 		return fmt.Errorf("unknown gen %q", c.OnlyGen)
 	}
+	noShared = c.Args["noshared"] != ""
 	for _, id := range strings.Split(c.Args["kf"], "+") {
 		if id != "" {
 			kf[id] = true
@@ -944,7 +1168,7 @@ func Run(c *core.Ctx) error {
 		t := c.Trace("c03_kf_smbase_os", "Trace_PackCodec")
 		forceOS = otherUnix[len(otherUnix)-1]
 		t.Reset("kf_smbase_os", 0, core.Ev{"type": "SMBasePack"})
-		if err := roundTrip(c, t, typeByName("SMBasePack"), c.Rng("kf_smbase_os", 0).Int63()); err != nil {
+		if err := roundTrip(c, t, typeByName("SMBasePack"), c.Rng("kf_smbase_os", 0).Int63(), 0); err != nil {
 			return err
 		}
 		t.Emit(core.Ev{"ev": "End", "n": 1})
@@ -956,6 +1180,9 @@ func Run(c *core.Ctx) error {
 	}
 	ct := c.Trace("c03_containers", "Trace_PackCodec")
 	if err := runContainers(c, ct); err != nil {
+		return err
+	}
+	if err := runCounts(c); err != nil {
 		return err
 	}
 	if c.OnlyGen == "" {
@@ -981,6 +1208,7 @@ func Run(c *core.Ctx) error {
 	}
 	c.SetExtra("optional_sections_required_by_writer_information_only", stats.nilFallback)
 	c.SetExtra("sensitivity_probes", stats.probes)
+	c.SetExtra("shared_copy_probing_abandoned_information_only", stats.sharedAbandoned)
 	c.SetExtra("leaves_recorded", stats.leaves)
 	return nil
 }
